@@ -95,6 +95,7 @@ type State struct {
 	next   Val
 	defers []deferred
 	iters  map[ssa.Value]Val // visited sets of map iterators
+	oldOv  map[string]Val    // old() overrides: protected state rebased at lock acquisition on this path
 	epochs []*lazyEpoch      // havoc events whose not-yet-materialised heaps get one deterministic fresh constant each
 }
 
@@ -127,6 +128,12 @@ func (s *State) epochFor(name string) *lazyEpoch {
 func (s *State) clone() *State {
 	n := &State{reach: s.reach, next: s.next, cells: map[*ssa.Alloc]Val{}, heaps: map[string]Val{}, iters: map[ssa.Value]Val{}}
 	n.epochs = append([]*lazyEpoch{}, s.epochs...)
+	if len(s.oldOv) > 0 {
+		n.oldOv = map[string]Val{}
+		for k, v := range s.oldOv {
+			n.oldOv[k] = v
+		}
+	}
 	for k, v := range s.cells {
 		n.cells[k] = v
 	}
@@ -867,6 +874,26 @@ func (e *Enc) merge(edges []edgeState, label string) *State {
 			vals = append(vals, v)
 		}
 		out.heaps[k] = mergeVals(k, vals)
+	}
+	ovKeys := map[string]bool{}
+	for _, ed := range edges {
+		for k := range ed.st.oldOv {
+			ovKeys[k] = true
+		}
+	}
+	for k := range ovKeys {
+		var vals []Val
+		for _, ed := range edges {
+			v, ok := ed.st.oldOv[k]
+			if !ok {
+				v = e.base[k] // not rebased on that path: old() is the entry value
+			}
+			vals = append(vals, v)
+		}
+		if out.oldOv == nil {
+			out.oldOv = map[string]Val{}
+		}
+		out.oldOv[k] = mergeVals(k+"_old", vals)
 	}
 	var nexts []Val
 	for _, ed := range edges {
